@@ -195,7 +195,7 @@ func (ft *funcTrans) loopHeader(li *loopInfo, fwdPreds []*ssa.BasicBlock, merged
 			})
 			ft.iterMode = ""
 			for k, inv := range li.lc.Invariants {
-				ec := &evalCtx{w: w, pkg: ft.pkgTypes(), env: env, st: pst, old: ft.entry, lets: ft.lets(), cells: ft.envCells, ft: ft}
+				ec := &evalCtx{w: w, pkg: ft.pkgTypes(), env: env, st: pst, old: ft.entry, lets: ft.lets(), cells: ft.loopCells(li, env), ft: ft}
 				t := ec.evalBool(inv.E)
 				saved := ft.reach[b]
 				ft.reach[b] = edge
@@ -278,7 +278,7 @@ func (ft *funcTrans) assumeInvariants(li *loopInfo) {
 	}
 	env := ft.loopEnv(li, func(phi *ssa.Phi) Term { return ft.vals[phi].T })
 	ft.assume(ft.w.arith(">=", env["#iter"], ft.w.intLit64(0, ft.w.goInt())).S)
-	ec := &evalCtx{w: w, pkg: ft.pkgTypes(), env: env, st: li.hdrState, old: ft.entry, lets: ft.lets(), cells: ft.envCells, ft: ft}
+	ec := &evalCtx{w: w, pkg: ft.pkgTypes(), env: env, st: li.hdrState, old: ft.entry, lets: ft.lets(), cells: ft.loopCells(li, env), ft: ft}
 	for k, inv := range li.lc.Invariants {
 		t := ec.evalBool(inv.E)
 		w.curTag = fmt.Sprintf("inv:%d:%d", li.ordinal, k+1)
@@ -316,7 +316,7 @@ func (ft *funcTrans) backEdge(from *ssa.BasicBlock, li *loopInfo, edgeCond strin
 		return ft.coerceTo(ft.termOf(phi.Edges[pi]), w.sortOf(phi.Type()))
 	})
 	ft.iterMode = ""
-	ec := &evalCtx{w: w, pkg: ft.pkgTypes(), env: env, st: ft.curSt, old: ft.entry, lets: ft.lets(), cells: ft.envCells, ft: ft}
+	ec := &evalCtx{w: w, pkg: ft.pkgTypes(), env: env, st: ft.curSt, old: ft.entry, lets: ft.lets(), cells: ft.loopCells(li, env), ft: ft}
 	saved := ft.reach[ft.cur]
 	ft.reach[ft.cur] = edgeCond
 	for k, inv := range li.lc.Invariants {
@@ -380,7 +380,10 @@ func (ft *funcTrans) instrMods(in ssa.Instruction, li *loopInfo) {
 	case *ssa.MakeSlice:
 		es := w.sortOf(x.Type().Underlying().(*types.Slice).Elem())
 		li.modHeaps[w.elemHeap(es)] = true
-	case *ssa.Go, *ssa.Defer, *ssa.RunDefers:
+	case *ssa.Go:
+		// the spawned goroutine is not modelled (sequential reasoning only): like outside loops,
+		// the go statement itself changes nothing the spawning function can see
+	case *ssa.Defer, *ssa.RunDefers:
 		li.modAll = true
 	case *ssa.Send, *ssa.Select:
 		for name, srt := range w.P.Spec.Ghosts {
@@ -741,4 +744,17 @@ func isRangeIndexPhi(phi *ssa.Phi) bool {
 		}
 	}
 	return sawInit
+}
+
+// loopCells: the cells visible in the invariants of li: captured variables of this closure and
+// address-taken / captured local variables declared before the loop. Their names denote the
+// current content, so stale value bindings of the same names are removed from env.
+func (ft *funcTrans) loopCells(li *loopInfo, env map[string]Term) map[string]*Loc {
+	cells := ft.localCells(li.header)
+	for name := range cells {
+		if _, captured := ft.envCells[name]; !captured {
+			delete(env, name)
+		}
+	}
+	return cells
 }
